@@ -151,8 +151,8 @@ def repeat(ctx, rng, idx):
     A = trajA[-1]
     if not all(np.all(np.isfinite(d)) for d in A["data"]):
         raise core.Skip("nonfinite")
-    # (a) same object again
-    trajB, _, _ = _traj(S.solve, s.field, cfl, stop={"maxit": N})
+    # (a) same object again (the initial field as the same object or as a copy of it: its content is what counts)
+    trajB, _, _ = _traj(S.solve, s.field if rng.random() < 0.5 else s.field.copy(), cfl, stop={"maxit": N})
     ctx.true("repeat-same-object", _same(A, trajB[-1]), "repeat/same-object/%s" % ("gear" if iname == "gear" else "implicit" if implicit else "explicit"), _diff(A, trajB[-1]), cls="repeat-same-object")
     # (c) unrelated solve on the same object (other field, save times, monitors), then again
     fo = s.other_field(rng)
